@@ -2,9 +2,10 @@
    Property theorems only; each is closed by a lemma of proofs/P_tsops.v (built on proofs/P_align.v).
    opc : cell -> cell -> cell is arbitrary (cell = option Z, None = NaN): every statement holds for every
    cell operation; add_/sub_/mul_/div_/pow_/comparisons are the instances cell_op of model/M_tsops.v.
-   Series operands are treated at full strength.  For DataFrames the same theorems apply to each per-column
-   call (C03_presync_common_index gives the index of every operand of every call); the assembly of the
-   per-column results into one frame (_convert) is tied to the code by the correspondence only. *)
+   Series / scalar operands and pairs of proper (multi-column) DataFrames are treated at full strength, including
+   presync's per-column dispatch and the assembly of the per-column results into the result frame (theorems C08_frame_index, _pointwise, _comm).
+   Mixed Series x DataFrame operands and single-column frames follow the same model and are checked by the
+   correspondence. *)
 From Coq Require Import ZArith List Bool Lia.
 From PB Require Import model.M_align model.M_tsops proofs.P_align proofs.P_tsops.
 Import ListNotations.
@@ -86,24 +87,79 @@ Proof.
 Qed.
 Print Assumptions C08_list_reduces_left.
 
-(* column policy 'oj': for a column that one frame lacks the function is called with the other frame's aligned
-   column and the default scalar; when the default is neutral for opc the result is that column unchanged.
-   PARTIAL: stated on the per-column call; that _convert puts this series into column x of the result frame
-   is checked by the correspondence, not proved. *)
-Theorem C08_oj_neutral_column_partial opc h m d ca ra cb rb x call :
-  multi ca = true -> multi cb = true -> In x ca -> ~ In x cb ->
-  In (Some x, call) (presync_calls h m (Some HO) d [Leaf (OF ca ra); Leaf (OF cb rb)]) ->
-  exists P, join_index h [index_of ra; index_of rb] = Some P /\
-    let col := column ca (reindex_m (nanrow ca) row_isnan m ra P) x in
-    call = [Leaf (OS col); Leaf (ON d)] /\
-    ((forall v, opc v d = v) -> op2 opc (OS col) (ON d) = OS col) /\
-    ((forall v, opc d v = v) -> op2 opc (ON d) (OS col) = OS col).
+(* Whole DataFrames (two proper, multi-column frames).  presync's column dispatch (_df_column) and _convert are
+   modelled by presync_calls / assemble; binop_frames proves the result is the frame whose cell (t, x) is
+   opc (operand cell of a) (operand cell of b), where the operand cell fcell is the frame's aligned cell if the
+   frame has column x and the kernel's default scalar otherwise.  No common column: the (documented) empty result. *)
+Theorem C08_frame_index opc h m ch d ca ra cb rb P C : multi ca = true -> multi cb = true -> (forall x, ch <> HX x) ->
+  join_index h [index_of ra; index_of rb] = Some P -> join_index ch [ca; cb] = Some C ->
+  (C = [] -> binop opc h m ch d (OF ca ra) (OF cb rb) = OS []) /\
+  (C <> [] -> exists rows, binop opc h m ch d (OF ca ra) (OF cb rb) = OF C rows /\ index_of rows = P) /\
+  match ch with
+  | HI => forall x, In x C <-> In x ca /\ In x cb
+  | HO => forall x, In x C <-> In x ca \/ In x cb
+  | HL => C = ca
+  | HR => C = cb
+  | HX _ => True
+  end.
 Proof.
-  intros Hma Hmb Hxa Hxb Hin.
-  destruct (oj_missing_column_call h m d ca ra cb rb x call Hma Hmb Hxa Hxb Hin) as [P [HP Hc]].
-  exists P. split; [exact HP|]. cbv zeta. split; [exact Hc|]. split; intros Hn; [apply op2_neutral_right | apply op2_neutral_left]; exact Hn.
+  intros Ha Hb Hch HP HC. rewrite (binop_frames opc h m ch d ca ra cb rb P C Ha Hb Hch HP HC).
+  split; [intros ->; reflexivity|]. split; [apply frame_result_shape|].
+  pose proof (join_index_spec ch _ C HC) as S. destruct ch; try exact I.
+  - intros x. rewrite S. split.
+    + intros Q. split; apply Q; simpl; auto.
+    + intros [Qa Qb] i [<-|[<-|[]]]; assumption.
+  - intros x. rewrite S. split.
+    + intros [i [[<-|[<-|[]]] Q]]; auto.
+    + intros [Q|Q]; [exists ca | exists cb]; simpl; auto.
+  - destruct S as [rest E]. inversion E. reflexivity.
+  - simpl in HC. inversion HC. reflexivity.
 Qed.
-Print Assumptions C08_oj_neutral_column_partial.
+Print Assumptions C08_frame_index.
+
+Theorem C08_frame_pointwise opc h m ch d ca ra cb rb P C t x : multi ca = true -> multi cb = true -> (forall x, ch <> HX x) ->
+  join_index h [index_of ra; index_of rb] = Some P -> join_index ch [ca; cb] = Some C -> In t P -> In x C ->
+  frame_cell (binop opc h m ch d (OF ca ra) (OF cb rb)) t x = opc (fcell m d ca ra x t) (fcell m d cb rb x t) /\
+  (In x ca -> fcell MNone d ca ra x t = match lookup t ra with Some row => row_get ca row x | None => None end) /\
+  (~ In x ca -> fcell m d ca ra x t = d).
+Proof.
+  intros Ha Hb Hch HP HC Ht Hx. rewrite (binop_frames opc h m ch d ca ra cb rb P C Ha Hb Hch HP HC).
+  split; [apply frame_result_cell; assumption|]. split; [apply fcell_none | apply fcell_missing].
+Qed.
+Print Assumptions C08_frame_pointwise.
+
+(* column policy 'oj': the result has the union of the column sets, and in a column that one side lacks every cell is
+   opc applied with that side replaced by the kernel's default - so, the default being neutral for opc
+   (C08_defaults_are_neutral), the other side's aligned cell unchanged.  Under 'ij': the intersection (C08_frame_index). *)
+Theorem C08_oj_neutral_column opc h m d ca ra cb rb P C t x : multi ca = true -> multi cb = true ->
+  join_index h [index_of ra; index_of rb] = Some P -> join_index HO [ca; cb] = Some C -> In t P ->
+  (forall y, In y C <-> In y ca \/ In y cb) /\
+  (In x ca -> ~ In x cb ->
+     frame_cell (binop opc h m HO d (OF ca ra) (OF cb rb)) t x = opc (fcell m d ca ra x t) d /\
+     ((forall v, opc v d = v) -> frame_cell (binop opc h m HO d (OF ca ra) (OF cb rb)) t x = fcell m d ca ra x t)) /\
+  (~ In x ca -> In x cb ->
+     frame_cell (binop opc h m HO d (OF ca ra) (OF cb rb)) t x = opc d (fcell m d cb rb x t) /\
+     ((forall v, opc d v = v) -> frame_cell (binop opc h m HO d (OF ca ra) (OF cb rb)) t x = fcell m d cb rb x t)).
+Proof.
+  intros Ha Hb HP HC Ht.
+  assert (Hch : forall y, HO <> HX y) by (intros y; discriminate).
+  destruct (C08_frame_index opc h m HO d ca ra cb rb P C Ha Hb Hch HP HC) as [_ [_ HU]].
+  split; [exact HU|]. split.
+  - intros Hxa Hxb.
+    destruct (C08_frame_pointwise opc h m HO d ca ra cb rb P C t x Ha Hb Hch HP HC Ht (proj2 (HU x) (or_introl Hxa))) as [E _].
+    rewrite E, (fcell_missing m d cb rb x t Hxb). split; [reflexivity | intros Hn; apply Hn].
+  - intros Hxa Hxb.
+    destruct (C08_frame_pointwise opc h m HO d ca ra cb rb P C t x Ha Hb Hch HP HC Ht (proj2 (HU x) (or_intror Hxb))) as [E _].
+    rewrite E, (fcell_missing m d ca ra x t Hxa). split; [reflexivity | intros Hn; apply Hn].
+Qed.
+Print Assumptions C08_oj_neutral_column.
+
+Theorem C08_frame_comm opc h m ch d ca ra cb rb : (forall x y, opc x y = opc y x) ->
+  multi ca = true -> multi cb = true -> sorted (index_of ra) -> sorted (index_of rb) -> sorted ca -> sorted cb ->
+  (h = HI \/ h = HO) -> (ch = HI \/ ch = HO) ->
+  binop opc h m ch d (OF ca ra) (OF cb rb) = binop opc h m ch d (OF cb rb) (OF ca ra).
+Proof. exact (binop_frames_comm opc h m ch d ca ra cb rb). Qed.
+Print Assumptions C08_frame_comm.
 
 (* the defaults of the kernels are neutral: 0 for add_/sub_, 1 for mul_/div_ *)
 Theorem C08_defaults_are_neutral v :
@@ -175,6 +231,31 @@ Proof.
   - intros cs. destruct (agg_cell_spec cs) as [A [B C]]. split; [exact A|]. split; [apply present_nil|]. split; assumption.
 Qed.
 Print Assumptions C08_sum_mean_count.
+
+(* the concrete cell operations of pow_, the comparisons and min_/max_ (exact-integer domain), and the pointwise law
+   instantiated for every operator name; min_/max_ go through df_sync + np.minimum/np.maximum (minmax) *)
+Theorem C08_operator_instances :
+  (forall a b, 0 <= b -> powc (Some a) (Some b) = Some (a ^ b)) /\
+  (powc None (Some 0) = Some 1 /\ (forall y, powc (Some 1) y = Some 1) /\
+   (forall b, b <> 0 -> powc None (Some b) = None) /\ (forall a, a <> 1 -> powc (Some a) None = None)) /\
+  (forall f a b, cmpc f (Some a) (Some b) = Some (if f a b then 1 else 0) /\
+                 (forall x, cmpc f None x = Some 0) /\ (forall x, cmpc f x None = Some 0)) /\
+  (forall a b, minc (Some a) (Some b) = Some (Z.min a b) /\ maxc (Some a) (Some b) = Some (Z.max a b) /\
+               (forall x, minc None x = None /\ minc x None = None /\ maxc None x = None /\ maxc x None = None)) /\
+  (forall o h m ch a b P, (o = OpPow \/ o = OpGt \/ o = OpGe \/ o = OpLt \/ o = OpLe) ->
+     join_index h [index_of a; index_of b] = Some P ->
+     ts_op o h m ch (One (OS a)) (One (OS b)) =
+       Some (OS (map (fun t => (t, cell_op o (val_at m a t) (val_at m b t))) P))) /\
+  (forall o h m ch a b P, (o = OpMin \/ o = OpMax) -> join_index h [index_of a; index_of b] = Some P ->
+     minmax (cell_op o) h m ch [OS a; OS b] =
+       Some (OS (map (fun t => (t, cell_op o (val_at m a t) (val_at m b t))) P))).
+Proof.
+  split; [exact powc_spec|]. split; [exact powc_nan|]. split; [exact cmpc_spec|]. split; [exact minmaxc_spec|]. split.
+  - intros o h m ch a b P Ho HP.
+    destruct Ho as [->|[->|[->|[->| ->]]]]; simpl; f_equal; apply binop_series; exact HP.
+  - intros o h m ch a b P Ho HP. apply minmax_series. exact HP.
+Qed.
+Print Assumptions C08_operator_instances.
 
 (* non-vacuity: partially overlapping series, a zero divisor, NaNs; frames with different column sets *)
 Example C08_example :
